@@ -29,13 +29,22 @@ CLAIMED = {
             "the same HeadTailManager arithmetic) must agree node by node. The Lean theorem Laid (positions) is not proved at "
             "this commit: the machine-checked part is the C01 text invariant on which it rests.",
             NOTE_COMMON + "Position arithmetic is covered by differential testing only at this commit.", "5 C02"),
-    "C03": ("translator obligations (tables fresh, regex trees, reserved map) by decide + three-way differential "
-            "(implementation / LR model over generated tables / independent precedence-climbing spec); certificate proof in progress",
-            "The LR model runs over the tables regenerated from the live parser on every run; freshness of parsetab.py against "
-            "the grammar source is an obligation; an independent python specification parser (implicit < OR < AND < prefix < "
-            "field < suffix) must give the same tree for every accepted query, and two re-layouts of every query must give "
-            "equal trees.",
-            NOTE_COMMON + "The abstract-interpretation certificate (Canon) theorem is not merged at this commit.", "5 C03"),
+    "C03": ("Lean 4 proof: kernel-checked abstract-interpretation certificate of the generated LALR tables (every parse result is "
+            "canonical w.r.t. precedence), lock-step simulation (layout independence), yield theorem; translator obligations "
+            "(tables fresh, regex trees, reserved map) by decide + three-way differential (implementation / LR model / "
+            "independent precedence-climbing spec)",
+            "Theorems: parse_canon (for every string, the tree returned satisfies CanonAt: an AND node has no un-parenthesised "
+            "OR/implicit operand, OR none implicit, prefixes/fields/boosts apply to non-operations, n-ary nodes are flat with "
+            ">= 2 operands, parentheses give a FieldGroup exactly under a field, range bounds/fuzzy/proximity operands are "
+            "terms): cert_ok is `certOK tables cert = true` by decide +kernel on the tables and the certificate regenerated "
+            "from the live parser on every run, run_canon is proved once for arbitrary tables; layout_independent / "
+            "layout_independent_error / layout_independent_iff (equal token kinds and texts give eqv trees or the same syntax "
+            "error); parse_yield (the token sequence is the yield of the tree) and same_yield_equal_trees; lexOne_word_kind / "
+            "reserved_words (a TERM lexeme is an operator only if it is exactly AND/OR/NOT/TO). tables_fresh: the cached "
+            "parsetab.py equals the tables generated from the grammar source. Completeness (every canonical token sequence is "
+            "accepted) is not proved at this commit: exercised by the three-way differential.",
+            NOTE_COMMON + "Semantic actions and lexer recognisers are hand-modelled; tables, precedence, regex trees and the "
+            "certificate are translated from the live objects (the certificate generator is untrusted: only its kernel check counts).", "5 C03"),
     "C04": ('Lean 4 proof (totality: parse never yields a model-internal error; fuel sufficiency; history independence on a stateful lexer model) + correspondence over call histories with forked history-free references',
             'Theorems: parse_total / parse_outcomes (for every string a tree or one of the two ParseError classes, nothing else: parse_never_internal rests on an LR stack-consistency invariant whose table facts are decide +kernel certificates, and runLoop_fuel_ok); lex_history_independent (for EVERY previous lexer state, stale tracker and mid-input position included, tokenising s gives lex s, because the first lexeme starts at offset 0), parseCall_eq_parse, nth_call_eq_parse, entry_points_agree. Correspondence: histories of 2-8 calls through both entry points against forked children that never parsed anything.',
             NOTE_COMMON + "PLY's own lexer/parser loop is modelled (Model/Stateful.lean, Parser.lean); RecursionError/MemoryError outside the claim.", "5 C04"),
